@@ -53,7 +53,7 @@ TCtor ==
             LET m == IF e.ctor = "ep" THEN ByEnPassant(e.color, e.from, t) ELSE Build(e.color, e.piece, e.from, t, e.capture, e.promo) IN
             /\ Diag("C20", e.strs[t] \in Strs(m), [kind |-> "attributes read back differ from the constructor's arguments", ctor |-> e.ctor, expected |-> Str(m, IF m.dbl THEN "d" ELSE "-"), got |-> e.strs[t]])
             /\ Diag("C20", FlagBit(e.flags[t], 1), [kind |-> "move not equal to an identically built move", mv |-> e.strs[t]])
-            /\ Diag("C20", FlagBit(e.flags[t], 2), [kind |-> "moves with different destinations compare equal", mv |-> e.strs[t]])
+            /\ Diag("C20", FlagBit(e.flags[t], 2), [kind |-> "a move compares equal to a move that differs from it in exactly one attribute (destination, captured piece, promotion piece, moving piece, colour or origin)", mv |-> e.strs[t]])
             /\ Diag("C20", FlagBit(e.flags[t], 4), [kind |-> "move changed by serialisation round trip", mv |-> e.strs[t]])
   /\ UNCHANGED <<pos, args>>
 
